@@ -76,3 +76,10 @@ Print Assumptions c12_read_returns_last_solve.
 From SymfcG Require Import ShapesSolvers ShapesBasis ShapesApi.
 Theorem c12_recorded_sources2_in_force : ShapesSolvers_as_recorded = true /\ ShapesBasis_as_recorded = true /\ ShapesApi_as_recorded = true.
 Proof. repeat split; reflexivity. Qed.
+
+(** What the modules on this property's path consist of besides the function bodies is the recorded one: every signature with its
+    defaults and keyword-only arguments, decorators, class bases, method lists and module-level statements (imports, constants) --
+    regenerated on every run. *)
+From SymfcG Require Import SkelBasis SkelSolvers SkelApi.
+Theorem c12_module_skeletons_in_force : SkelBasis_as_recorded = true /\ SkelSolvers_as_recorded = true /\ SkelApi_as_recorded = true.
+Proof. repeat split; reflexivity. Qed.
